@@ -559,6 +559,44 @@ def explore_extras(ctx: Ctx) -> Result:
         except Exception as e:  # noqa: BLE001
             total.violate(Violation(ID, "exception", "released-layout-file", case, f"released-layout file with batch {pre_b}, then add {new_bs}: raised {e!r}"))
     total.oblige("X:file-of-the-released-layout", True)
+    # X4: the shipped configuration's store for database paths with characters that mean something in a URI ('#', '?', '%'):
+    # two paths that differ only behind such a character are two databases, each in the file of that very name
+    from monkeytype.config import DefaultConfig
+
+    old_env = os.environ.get("MT_DB_PATH")
+    try:
+        for ch in ("#", "?", "%41", " "):
+            pa, pb = str(ctx.tmp / f"x_traces{ch}1.sqlite3"), str(ctx.tmp / f"x_traces{ch}2.sqlite3")
+            for p_ in (pa, pb):
+                if os.path.exists(p_):
+                    os.unlink(p_)
+            case = {"part": "X", "history": [["add", 0, 0]], "odd_path": ch}
+            total.states += 1
+            total.evaluations += 1
+            total.validated += 1
+            total.transitions += 3
+            try:
+                os.environ["MT_DB_PATH"] = pa
+                sa = DefaultConfig().trace_store()
+                sa.add([mktrace(s_) for s_ in BATCHES[0]])
+                os.environ["MT_DB_PATH"] = pb
+                sb = DefaultConfig().trace_store()
+                listed = sb.list_modules()
+                got_b = sb.filter("m", None, 100)
+                model_a = collections.Counter(r for r in (row_of(s_) for s_ in BATCHES[0]) if r is not None)
+                if listed or got_b:
+                    total.violate(Violation(ID, "content", "databases-with-similar-paths-share-rows", case, f"MT_DB_PATH={os.path.basename(pb)!r} was never written to, yet lists {listed} and returns {len(got_b)} rows (added to {os.path.basename(pa)!r})"))
+                if not os.path.exists(pa) or indep_rows(pa) != model_a:
+                    total.violate(Violation(ID, "content", "database-not-in-the-named-file", case, f"rows added with MT_DB_PATH={os.path.basename(pa)!r}: the file of that name {'does not exist' if not os.path.exists(pa) else 'holds other rows'}"))
+                check_queries(sa, model_a, total, dict(case, conn=0), f"DefaultConfig store at a path containing {ch!r}")
+            except Exception as e:  # noqa: BLE001
+                total.violate(Violation(ID, "exception", "odd-database-path", case, f"database path containing {ch!r}: raised {e!r}"))
+        total.oblige("X:odd-database-paths", True)
+    finally:
+        if old_env is None:
+            os.environ.pop("MT_DB_PATH", None)
+        else:
+            os.environ["MT_DB_PATH"] = old_env
     return total
 
 
@@ -1117,7 +1155,7 @@ def run(ctx: Ctx) -> Result:
 def _finish(res: Result) -> Result:
     for o in (
         "H:query-distinguishing-LIKE-from-prefix", "H:state-with-duplicates", "H:multi-connection-state",
-        "RF:interrupted-query-raised", "X:same-row-committed-on-different-days", "X:tables-with-different-modules", "X:large-batch-whole", "X:file-of-the-released-layout",
+        "RF:interrupted-query-raised", "X:same-row-committed-on-different-days", "X:tables-with-different-modules", "X:large-batch-whole", "X:file-of-the-released-layout", "X:odd-database-paths",
         "S:second-writer-committed-inside", "P:other-process-committed-while-writer-paused", "K:crash-before-commit", "K:crash-after-commit", "F:abort-rolled-back",
     ):
         res.obligations.setdefault(o, False)
@@ -1142,6 +1180,8 @@ def replay(case: Dict[str, Any], ctx: Ctx) -> List[Violation]:
             return [v for v in explore_extras(ctx).violations if v.case.get("big")]
         if case.get("released"):
             return [v for v in explore_extras(ctx).violations if v.case.get("released")]
+        if case.get("odd_path"):
+            return [v for v in explore_extras(ctx).violations if v.case.get("odd_path")]
         import monkeytype.db.sqlite as sq
         from mcheck.props.c14 import FakeDatetimeModule
 
